@@ -66,8 +66,9 @@ def serialise(shape, ctx, tag="d"):
     return out
 
 
-def q_script_parse(env, name=None):
-    qr = QResult(name or "script_parse")
+def q_script_parse(env, part="all", name=None):
+    """part: "all" | "no_direct_truncation" (everything except inputs cut inside a final DIRECT push) | "direct_truncation" (only those)"""
+    qr = QResult(name or f"script_parse_{part}")
     P = env.P
     f = env.fn("script::Script::from_bytes")
     E = P.enums["ScriptBit"]
@@ -226,16 +227,19 @@ def q_script_parse(env, name=None):
         ctx = Ctx()
         ctx.payloads = []
         units = serialise(shape, ctx)
-        run_case(label, units, ctx.payloads, ("parse", shape), "")
+        if part != "direct_truncation":
+            run_case(label, units, ctx.payloads, ("parse", shape), "")
         # truncation inside the last push (if the script ends in one): 1 byte short and payload entirely missing
         last = shape[-1] if shape else None
         if last and last[0] in ("push", "pd1", "pd2"):
             n = last[1]
             kind = "direct push" if last[0] == "push" else "OP_PUSHDATA push"
+            if (part == "no_direct_truncation" and last[0] == "push") or (part == "direct_truncation" and last[0] != "push"):
+                continue
             for cut in sorted({1, n}):
                 run_case(f"{label}, last push cut by {cut} byte(s)", units[:len(units) - cut], ctx.payloads, ("err", None),
                          f"truncated {kind}: the last push declares {n} bytes but only {n - cut} remain, and the script is accepted (silently shortened) instead of rejected")
-    for label, raw in UNCLOSED.items():
+    for label, raw in (UNCLOSED.items() if part != "direct_truncation" else ()):
         run_case(label, [z3.BitVecVal(b, 8) for b in raw], [], ("err", None), "a conditional block that is never closed is accepted")
     qr.samples.append({"obligation": qr.name, "shapes": list(SHAPES), "unclosed": list(UNCLOSED)})
     return qr
